@@ -155,6 +155,25 @@ def mutations(shape, base_is_var, prefix_empty):
             res.append(("store-int", (scalar_int[0],)) + store((scalar_int[0],)))
             if len(scalar_int) > 1:
                 res.append(("store-int-last", (scalar_int[-1],)) + store((scalar_int[-1],), 97))
+        # compound element assignment on an EXISTING element (its own code path: assignIndexConcat /
+        # the desugared compound operators); the generator knows the element's value v, so the model
+        # statement is the store of the resulting value: `.= '7'` stores 10*v+7 (v >= 0; the snapshot
+        # reads the digit string back as an int), `+= 5` stores v+5, `*= 2` stores 2*v
+        vals = dict((k, x) for k, x in ents if isinstance(x, int))
+
+        def compound(path, op, v):
+            k = path[-1]
+            nv = {".=": 10 * vals[k] + 7, "+=": vals[k] + 5, "*=": vals[k] * 2}[op]
+            rhs = {".=": "'7'", "+=": "5", "*=": "2"}[op]
+            return ("AStore %s" % coq_z(nv), lambda lv, p=path: "%s%s %s %s;" % (lv, "".join(php_key(q) for q in p), op, rhs))
+        if scalar_int:
+            res.append(("concat-int", (scalar_int[0],)) + compound((scalar_int[0],), ".=", None))
+            res.append(("add-assign-int", (scalar_int[-1],)) + compound((scalar_int[-1],), "+=", None))
+            res.append(("mul-assign-int", (scalar_int[0],)) + compound((scalar_int[0],), "*=", None))
+        sk_scalar = [k for k, x in ents if isinstance(k, str) and isinstance(x, int)]
+        if sk_scalar:
+            res.append(("concat-str", (sk_scalar[0],)) + compound((sk_scalar[0],), ".=", None))
+            res.append(("add-assign-str", (sk_scalar[-1],)) + compound((sk_scalar[-1],), "+=", None))
         if not strkeys:
             res.append(("store-int-end", (n,)) + store((n,)))
             res.append(("store-int-sparse", (n + 3,)) + store((n + 3,)))
@@ -263,6 +282,27 @@ def routes(shape):
                 shape.model_setup("a") + ["SLit \"w\" (LList [])", "SElemStore \"w\" (KS \"x\") \"a\"",
                                           "SElemRead \"b\" \"w\" (KS \"x\")"],
                 elem_side("w", "x"), var_side("b"), False, ("copy", "orig"), None))
+    if shape.literal_only:
+        # returned from a METHOD that returns an object property (the call result is not a fresh array)
+        res.append(("method-return", "class C2 { public $p = %s; public function all() { return $this->p; } }\n" % lit,
+                    "$o = new C2(); $b = $o->all();",
+                    ["SNewObj \"o\" \"p\" (%s)" % coq_lit(shape.lit), "SPropRead \"b\" \"o\" \"p\""],
+                    prop_side("o", "p"), var_side("b"), False, ("copy", "orig"), None))
+        # returned from a static method returning a static property is not modelled (no static store in the model)
+    # returned from a BUILT-IN that returns an element of its argument: end / reset / current
+    res.append(("builtin-end", "", shape.php_setup("$a") + " $w = [5]; $w[] = $a; $b = end($w);",
+                shape.model_setup("a") + ["SLit \"w\" (LList [LInt 5])", "SElemAppend \"w\" \"a\"",
+                                          "SElemRead \"b\" \"w\" (KI 1)"],
+                elem_side("w", 1), var_side("b"), False, ("copy", "orig"), None))
+    res.append(("builtin-reset", "", shape.php_setup("$a") + " $w = []; $w[] = $a; $w[] = 5; $b = reset($w);",
+                shape.model_setup("a") + ["SLit \"w\" (LList [])", "SElemAppend \"w\" \"a\"",
+                                          "SSetInt \"five\" 5", "SElemAppend \"w\" \"five\"",
+                                          "SElemRead \"b\" \"w\" (KI 0)"],
+                elem_side("w", 0), var_side("b"), False, ("copy", "orig"), None))
+    res.append(("builtin-current", "", shape.php_setup("$a") + " $w = []; $w[] = $a; $b = current($w);",
+                shape.model_setup("a") + ["SLit \"w\" (LList [])", "SElemAppend \"w\" \"a\"",
+                                          "SElemRead \"b\" \"w\" (KI 0)"],
+                elem_side("w", 0), var_side("b"), False, ("copy", "orig"), None))
     # explicit reference: the write is meant to show through
     res.append(("reference", "", shape.php_setup("$a") + " $b = &$a;", shape.model_setup("a") + ["SRefVar \"b\" \"a\""],
                 var_side("a"), var_side("b"), True, ("copy",), None))
@@ -291,21 +331,25 @@ def build_case(shape, route, mut, side):
 
 
 # ---------------------------------------------------------------------------- snapshots -> Coq trees
-def coq_tree(j):
+def coq_tree(j, raw=False):
+    """raw=False: canonical integer strings used as keys are normalised to int keys (the model's
+    abstraction of ZVal.Name); raw=True: keys exactly as the foreach yielded them"""
     if j is None:
         return "TNull"
     if isinstance(j, bool):
         return "TInt %d" % (1 if j else 0)
     if isinstance(j, int):
         return "TInt %s" % coq_z(j)
+    if isinstance(j, str) and j.isdigit() and str(int(j)) == j:
+        return "TInt %s" % coq_z(int(j))       # `.=` on an int element yields the digit string
     if isinstance(j, list):
         items = []
         for pair in j:
             k, v = pair[0], pair[1]
-            if isinstance(k, str) and (k.isdigit() or (k.startswith("-") and k[1:].isdigit())) and str(int(k)) == k:
+            if not raw and isinstance(k, str) and (k.isdigit() or (k.startswith("-") and k[1:].isdigit())) and str(int(k)) == k:
                 k = int(k)
             kk = "TKI %s" % coq_z(k) if isinstance(k, int) else "TKS %s" % cs(k)
-            items.append("(%s, %s)" % (kk, coq_tree(v)))
+            items.append("(%s, %s)" % (kk, coq_tree(v, raw)))
         return "TArr %s" % coq_list(items)
     if isinstance(j, dict):
         return "TObjRef 0%nat"
@@ -326,9 +370,11 @@ def parse_snaps(out):
 
 def coq_case(c, snaps):
     return ("{| c_pre := %s; c_mut := %s; c_a := %s; c_b := %s; c_other_is_a := %s; c_ref := %s; "
-            "i_a0 := %s; i_b0 := %s; i_a1 := %s; i_b1 := %s |}") % (
+            "i_a0 := %s; i_b0 := %s; i_a1 := %s; i_b1 := %s; r_o0 := %s; r_o1 := %s |}") % (
         coq_list(c["pre"]), coq_list(c["mut"]), c["a"], c["b"], coq_bool(c["other_is_a"]), coq_bool(c["ref"]),
-        coq_tree(snaps["a0"]), coq_tree(snaps["b0"]), coq_tree(snaps["a1"]), coq_tree(snaps["b1"]))
+        coq_tree(snaps["a0"]), coq_tree(snaps["b0"]), coq_tree(snaps["a1"]), coq_tree(snaps["b1"]),
+        coq_tree(snaps["a0" if c["other_is_a"] else "b0"], raw=True),
+        coq_tree(snaps["a1" if c["other_is_a"] else "b1"], raw=True))
 
 
 def finding_key(c):
@@ -426,6 +472,10 @@ def main(ck):
             ck.violation("tie:route=%s:mutation=%s" % (c["route"], c["mutation"]),
                          {"case": c, "impl_out": parse_snaps(o.get("out", "")),
                           "clause": "model and implementation disagree on a snapshot" + ("; and the other name changed" if 2 in cls else "")})
+        elif 3 in cls and 2 not in cls:
+            leaks += 1
+            ck.violation(finding_key(c) + ":key-types", {"case": c, "impl_out": parse_snaps(o.get("out", "")),
+                         "clause": "copy_then_mutate: the write through one name changed the KEY TYPES a foreach over the other name yields (int keys became numeric strings or back)"})
         elif 2 in cls:
             leaks += 1
             ck.violation(finding_key(c), {"case": c, "impl_out": parse_snaps(o.get("out", "")),
@@ -439,5 +489,5 @@ def main(ck):
     distinct = len(set(c["src"] for c in cases))
     ck.finish(level="proof", evaluations=len(cases), distinct_nontrivial=distinct,
               rule="every (shape x route x applicable mutation x side) of the shape family (10 shapes quick / 14 thorough x 4 seeded rounds), "
-                   "10 routes, up to 20 mutations; element values seeded; non-trivial = distinct program text (every case mutates an existing array through one of two names)",
+                   "15 routes (incl. method returning a property and the built-ins end/reset/current returning an element), up to 25 mutations (incl. compound element assignment .= += *=); the other name is compared key-type-exactly; element values seeded; non-trivial = distinct program text (every case mutates an existing array through one of two names)",
               traces=len(terms))
